@@ -17,7 +17,7 @@ def sh(cmd, cwd=None, timeout=3600):
 
 
 meta = dict(property=prop, source='independent sub-agent given only the property text and a scratch worktree', ran=[])
-wt = '/tmp/sw_%s_%s' % (prop, k)
+wt = '/tmp/sw_%s_%s%s' % (prop, os.environ.get('SEEDED_TAG', ''), k)
 sh('git -C /repo worktree remove --force %s' % wt)
 shutil.rmtree(wt, ignore_errors=True)
 rc, out = sh('git -C /repo worktree add -q --detach %s HEAD' % wt)
@@ -67,7 +67,7 @@ meta['ran'] = ['scratch worktree: demo on clean code (exit %s), git apply, demo 
     'git -C /repo apply patch.diff; ./check <ID> --tier quick for %s; git -C /repo checkout -- .' % ', '.join(checks)]
 if os.path.exists(notes):
     meta['needs_to_manifest'] = open(notes).read()[:1500]
-d = '/verif/seeded/%s_%s' % (prop, k)
+d = '/verif/seeded/%s_%s%s' % (prop, os.environ.get('SEEDED_TAG', ''), k)
 os.makedirs(d, exist_ok=True)
 shutil.copy(patch, d + '/patch.diff')
 shutil.copy(demo, d + '/demo.py')
